@@ -485,11 +485,16 @@ class Walker:
         form = (self.style + self.ninc) % 3
         self.stmt("include", [name, '"%s"' % name, name[:-4]][form])
         save = (self.cur, self.cur_name, self.stack)
+        save_rept = self.in_rept
         if self.render:
             self.cur, self.cur_name, self.stack = [], name, []
+            # asl names positions in an included file from that file on (`i1.inc(7)`), also when the INCLUDE
+            # statement itself stands in a REPT body: such a warning has a plain position again
+            self.in_rept = 0
         try:
             self.walk(n["b"], active, depth)
         finally:
+            self.in_rept = save_rept
             if self.render:
                 self.files[name] = "\n".join(l["text"] for l in self.cur) + "\n"
                 self.cur, self.cur_name, self.stack = save
